@@ -1,4 +1,5 @@
 """C04 - calendar-unit arithmetic follows the wall clock with end-of-month clamping.
+Duration operands of mixed signs included: the specification re-normalises their components (DurC).
 Stimuli: every month length / leap day / year boundary x month shifts beyond +-12 x day shifts beyond a
 month, for Date and DateTime; targets placed inside gaps and overlaps of the tz data (sources built with
 both folds); the operator paths + Duration, - Duration, + (-Duration), subtract(components)."""
@@ -36,6 +37,21 @@ def canonical(rnd, sign, cal=True, time=True):
     return c
 
 
+def mixed(rnd, time=True):
+    """components of independent signs (a Duration re-normalises everything but years and months)"""
+    c = dict(Z0)
+    c["y"] = rnd.choice((0, 0, 1, -1, 3))
+    c["mo"] = rnd.choice((0, 1, -1, 2, -11, 13))
+    c["w"] = rnd.choice((0, 0, 1, -1, 5, -5))
+    c["d"] = rnd.choice((0, 1, -1, 3, -3, 6, -10, 45, -45))
+    if time:
+        c["h"] = rnd.choice((0, 1, -1, 23, -25))
+        c["mi"] = rnd.choice((0, 59, -61))
+        c["s"] = rnd.choice((0, 1, -1, 3601))
+        c["us"] = rnd.choice((0, 1, -1, 999999))
+    return c
+
+
 def drive(ctx):
     from .. import suite
 
@@ -70,11 +86,11 @@ def drive(ctx):
             ctx.emit("add_cal", {"c": c2, "entry": ("add", "subtract")[n % 2]},
                      [mk_dt(UTCZ if n % 4 else NAIVE, [d.year, d.month, d.day] + list(tm), 0)])
             # Duration operator paths (canonical signatures)
-            cc = canonical(rnd, (1, -1)[n % 2])
+            cc = canonical(rnd, (1, -1)[n % 2]) if n % 3 else mixed(rnd)
             if any(cc.values()):
                 ctx.emit("add_cal", {"c": cc, "entry": DT_ENTRIES[n % 6]},
                          [mk_dt(UTCZ, [d.year, d.month, d.day] + list(tm), 0)])
-                cd = canonical(rnd, (1, -1)[n % 2], time=False)
+                cd = canonical(rnd, (1, -1)[n % 2], time=False) if n % 3 else mixed(rnd, time=False)
                 if D_ENTRIES[n % 7] in ("plus_td", "minus_td"):
                     cd = dict(cd, y=0, mo=0)        # a timedelta carries whole days only
                 ctx.emit("add_cal_date", {"c": cd, "entry": D_ENTRIES[n % 7]},
@@ -92,8 +108,9 @@ def drive(ctx):
                 if not (3 < tw[0] < 9997):
                     continue
                 shapes = [C(d=1), C(d=-1), C(w=1), C(mo=1), C(mo=-1), C(y=1), C(y=-1, mo=2, d=-3),
-                          C(d=1, h=2), C(d=-1, h=-1, mi=-30), C(d=2, s=-1), C(mo=12, us=1), C(w=-2, d=3, h=5)]
-                for c in (pick(rnd, shapes, 4) if q else shapes):
+                          C(d=1, h=2), C(d=-1, h=-1, mi=-30), C(d=2, s=-1), C(mo=12, us=1), C(w=-2, d=3, h=5),
+                          C(d=1, h=-2), C(d=-1, h=3), C(mo=1, d=-3), C(y=-1, w=1, d=-2)]
+                for c in (pick(rnd, shapes, 5) if q else shapes):
                     n += 1
                     # source wall = target wall shifted back on the calendar (naive arithmetic, only to aim)
                     t = _dt.datetime(*tw)
@@ -116,8 +133,6 @@ def drive(ctx):
                         cc = c
                         if en in ("subtract", "minus_dur", "plus_neg_dur"):
                             cc = {k: -v for k, v in c.items()}
-                        if en in ("plus_dur", "minus_dur", "plus_neg_dur", "radd_dur") and not same_sign(cc):
-                            en = "add" if en in ("plus_dur", "radd_dur") else "subtract"
                         ctx.emit("add_cal", {"c": cc, "entry": en}, [mk_dt(zr, sw, f)])
     # (c) random
     for k in range(200 if q else 3000):
@@ -130,7 +145,7 @@ def drive(ctx):
         c = C(y=rnd.randrange(-20, 21), mo=rnd.randrange(-40, 41), w=rnd.randrange(-60, 61), d=rnd.randrange(-500, 501),
               h=rnd.randrange(-100, 101), mi=rnd.randrange(-3000, 3001), s=rnd.randrange(-10 ** 5, 10 ** 5),
               us=rnd.randrange(-10 ** 7, 10 ** 7))
-        ctx.emit("add_cal", {"c": c, "entry": ("add", "subtract")[k % 2]},
+        ctx.emit("add_cal", {"c": c, "entry": ("add", "subtract")[k % 2] if k % 3 else DT_ENTRIES[2 + k % 4]},
                  [mk_dt({"n": "", "fo": rnd.randrange(-86399, 86400)} if k % 2 else UTCZ, w, 0)])
 
 
